@@ -15,6 +15,7 @@ package clustermc
 
 import (
 	"fmt"
+	"os"
 	"sort"
 	"strconv"
 	"strings"
@@ -26,6 +27,7 @@ import (
 	"github.com/feichai0017/NoKV/raftstore/command"
 	"github.com/feichai0017/NoKV/raftstore/peer"
 	"github.com/feichai0017/NoKV/raftstore/store"
+	"github.com/feichai0017/NoKV/wal"
 )
 
 const (
@@ -101,12 +103,17 @@ type Scenario struct {
 	Ops      []OpSpec
 	Budget   int // deviation budget
 	Faults   Faults
-	MaxBeats int // heartbeat rounds (HeartbeatTick ticks each) per leader peer; HeartbeatTick*MaxBeats < ElectionTick
+	MaxBeats int   // heartbeat rounds (HeartbeatTick ticks each) per leader peer; HeartbeatTick*MaxBeats < ElectionTick
+	BeatAt   []int // restrict heartbeat rounds to leader peers on these stores (nil = any)
 	MaxDepth int
 	// DepthBound: MaxDepth is a declared bound (all states reachable by at most MaxDepth
 	// transitions are expanded, exactly). Otherwise MaxDepth is only a safety net and the
 	// scenario is expected to close (no enabled transition left anywhere).
 	DepthBound bool
+	// WAL: every peer uses the production storage stack (engine.WALStorage over a real
+	// wal.Manager + manifest.Manager per store, in a per-execution scratch directory)
+	// instead of etcd's MemoryStorage.
+	WAL bool
 }
 
 func (sc *Scenario) Describe() string {
@@ -118,8 +125,16 @@ func (sc *Scenario) Describe() string {
 	if sc.DepthBound {
 		depth = fmt.Sprintf("depth<=%d", sc.MaxDepth)
 	}
-	return fmt.Sprintf("%s: regions=%d leaders=%v ops=[%s] deviations<=%d faults=%s heartbeat-rounds<=%d %s",
-		sc.Name, sc.Regions, sc.Leaders, strings.Join(ops, " "), sc.Budget, sc.Faults, sc.MaxBeats, depth)
+	storage := "MemoryStorage"
+	if sc.WAL {
+		storage = "WALStorage(wal+manifest on tmpfs)"
+	}
+	beats := fmt.Sprint(sc.MaxBeats)
+	if len(sc.BeatAt) > 0 && sc.MaxBeats > 0 {
+		beats += fmt.Sprintf("@stores%v", sc.BeatAt)
+	}
+	return fmt.Sprintf("%s: regions=%d leaders=%v ops=[%s] deviations<=%d faults=%s heartbeat-rounds<=%s %s raft-log=%s",
+		sc.Name, sc.Regions, sc.Leaders, strings.Join(ops, " "), sc.Budget, sc.Faults, beats, depth, storage)
 }
 
 func peerID(region, storeIdx int) uint64 { return uint64(region*10 + storeIdx) }
@@ -323,7 +338,16 @@ type Cluster struct {
 	votes  map[uint64][]string // per peer: (pre)vote responses delivered to it (raft keeps the tally privately)
 	wait   func()              // synctest.Wait
 	closed bool
+	dir    string
+	wals   [NumStores + 1]*wal.Manager
+	mans   [NumStores + 1]*manifest.Manager
 }
+
+// ScratchBase is the directory under which WAL-backed scenarios create their per-execution
+// directories (set by the runner; on tmpfs).
+var ScratchBase string
+
+var execSeq int
 
 type discardLogger struct{}
 
@@ -349,10 +373,32 @@ func NewCluster(sc *Scenario, wait func()) (*Cluster, error) {
 	loggerOnce.Do(func() { myraft.SetLogger(discardLogger{}) })
 	c := &Cluster{sc: sc, peers: map[uint64]*peer.Peer{}, metas: map[int]manifest.RegionMeta{},
 		net: &network{q: map[link][]myraft.Message{}}, beats: map[uint64]int{}, votes: map[uint64][]string{}, wait: wait}
+	if sc.WAL {
+		if ScratchBase == "" {
+			return nil, fmt.Errorf("clustermc: ScratchBase not set for a WAL-backed scenario")
+		}
+		execSeq++
+		c.dir = fmt.Sprintf("%s/x%d-%d", ScratchBase, os.Getpid(), execSeq)
+	}
 	for s := 1; s <= NumStores; s++ {
 		rc := &recorder{kv: map[string]string{}}
 		c.recs[s] = rc
-		c.stores[s] = store.NewStoreWithConfig(store.Config{StoreID: uint64(s), CommandApplier: rc.apply})
+		cfg := store.Config{StoreID: uint64(s), CommandApplier: rc.apply}
+		if sc.WAL {
+			// as in production (cmd/nokv serve): one WAL manager and one manifest per store,
+			// shared by the store's region catalog and all of its peers
+			w, err := wal.Open(wal.Config{Dir: fmt.Sprintf("%s/s%d/wal", c.dir, s)})
+			if err != nil {
+				return nil, err
+			}
+			m, err := manifest.Open(fmt.Sprintf("%s/s%d/manifest", c.dir, s), nil)
+			if err != nil {
+				return nil, err
+			}
+			c.wals[s], c.mans[s] = w, m
+			cfg.Manifest = m
+		}
+		c.stores[s] = store.NewStoreWithConfig(cfg)
 	}
 	for r := 1; r <= sc.Regions; r++ {
 		meta := manifest.RegionMeta{ID: uint64(r), Epoch: manifest.RegionEpoch{Version: 1, ConfVersion: 1}, State: manifest.RegionStateRunning}
@@ -379,6 +425,8 @@ func NewCluster(sc *Scenario, wait func()) (*Cluster, error) {
 				Apply:     func([]myraft.Entry) error { return fmt.Errorf("clustermc: store did not install its applier") },
 				GroupID:   uint64(r),
 				Region:    manifest.CloneRegionMetaPtr(&meta),
+				WAL:       c.wals[s],
+				Manifest:  c.mans[s],
 			}
 			p, err := c.stores[s].StartPeer(cfg, boot)
 			if err != nil {
@@ -433,6 +481,15 @@ func (c *Cluster) Close() {
 			}
 		}
 		c.stores[s].Close()
+		if c.wals[s] != nil {
+			_ = c.wals[s].Close()
+		}
+		if c.mans[s] != nil {
+			_ = c.mans[s].Close()
+		}
+	}
+	if c.dir != "" {
+		_ = os.RemoveAll(c.dir)
 	}
 }
 
@@ -464,7 +521,7 @@ func (c *Cluster) Enabled() []string {
 		}
 	}
 	for _, id := range c.pids {
-		if c.beats[id] < c.sc.MaxBeats && c.peers[id].Status().RaftState == myraft.StateLeader {
+		if c.beats[id] < c.sc.MaxBeats && allowed(c.sc.BeatAt, storeOf(id)) && c.peers[id].Status().RaftState == myraft.StateLeader {
 			out = append(out, "b:"+strconv.FormatUint(id, 10))
 		}
 	}
@@ -572,6 +629,7 @@ func (c *Cluster) Apply(tr string) error {
 			}
 		} else {
 			c.devs++
+			delete(c.votes, id) // raft starts a fresh tally with every campaign
 			if err := c.peers[id].Campaign(); err != nil {
 				c.errs = append(c.errs, fmt.Sprintf("campaign%d:%v", id, err))
 			}
